@@ -292,7 +292,14 @@ def _contain(case):
     impl.fresh(False)
     imphook.install(serve_all=False, behaviour=table)
     spec = _contain_pel(behs, order)
+    from mc import statefp
+    before = statefp.process_state()
     r = decode.parse(pelgen.encode_pel(pelgen.pel_from_spec(spec)))
+    after = statefp.process_state()
+    if after != before:
+        _bad(out, case, 'process-state-changed', 'decoding with parser behaviours %s left interpreter-wide state changed: %s' % (
+            [BEH_NAMES[b] for b in behs], [x for x in after if x not in before]))
+        sys.stdout, sys.stderr = sys.__stdout__, sys.__stderr__
     if r['kind'] != 'doc' or ref['kind'] != 'doc':
         _bad(out, case, 'not-decoded', 'behaviours %s: %s %s' % ([BEH_NAMES[b] for b in behs], r['kind'], r.get('msg')))
         return out
@@ -344,7 +351,14 @@ def _src_seq(case):
     impl.fresh(False)
     imphook.install(serve_all=False, behaviour={modname: 'by-payload'})
     spec = {'creator': creator, 'sections': [src('PS', case['first'], 0x11), src('SS', 0, 0x22), SENT]}
+    from mc import statefp
+    before = statefp.process_state()
     r = decode.parse(pelgen.encode_pel(pelgen.pel_from_spec(spec)))
+    after = statefp.process_state()
+    if after != before:
+        _bad(out, case, 'process-state-changed', 'decoding with SRC parser behaviour %s left interpreter-wide state changed: %s' % (
+            BEH_NAMES[case['first']], [x for x in after if x not in before]))
+        sys.stdout, sys.stderr = sys.__stdout__, sys.__stderr__
     if r['kind'] != 'doc' or ref['kind'] != 'doc':
         _bad(out, case, 'not-decoded', 'primary SRC parser behaviour %s: %s %s' % (BEH_NAMES[case['first']], r['kind'], r.get('msg')))
         return out
